@@ -220,6 +220,20 @@ func checkC07(w *Worker) {
 					viol("totals-vs-reg-single|amounts-differ", fmt.Sprintf("element %s: report totals %v, rows of `reg -s %s`:\n%s", el, want, el, sOut.Stdout))
 					return
 				}
+				// flags that qualify the other registers select nothing here: the rows of the single-element register (and
+				// with them every sum above) are the same with each of them
+				if el == "cal" || el == "fat" {
+					for _, q := range [][]string{{"--no-totals"}, {"--totals-only"}, {"--shorten"}, {"--use-old-reg-reporter"}, {"--internal-template-name", "left-aligned"}, {"--no-totals", "--shorten"}} {
+						qOut := run(append([]string{"reg", "-s", el}, q...)...)
+						if failed {
+							return
+						}
+						if qOut.Stdout != sOut.Stdout {
+							viol("reg-single|rows-depend-on-a-presentation-flag", fmt.Sprintf("`reg -s %s %s` prints\n%s\n`reg -s %s` prints\n%s", el, strings.Join(q, " "), qOut.Stdout, el, sOut.Stdout))
+							return
+						}
+					}
+				}
 				b, err := parseBalance(bOut.Stdout)
 				if err != nil || !b.HasTotal {
 					viol("bal-single-unparseable", fmt.Sprintf("%v\n%s", err, bOut.Stdout))
